@@ -48,6 +48,9 @@ type Client struct {
 	// isClosedConnection indicates if the websocket connection is closed.
 	isClosedConnection bool
 	mu                 *sync.RWMutex
+	// writeMu serialises everything that is written to clientConn: a frame is written with more
+	// than one Write call, and nothing may follow the close frame.
+	writeMu sync.Mutex
 }
 
 // NewClient will create a new websocket subscription client.
@@ -90,6 +93,9 @@ func (c *Client) ReadBytesFromClient() ([]byte, error) {
 
 // WriteBytesToClient will write a subscription message to the websocket client.
 func (c *Client) WriteBytesToClient(message []byte) error {
+	c.writeMu.Lock()
+	defer c.writeMu.Unlock()
+
 	if !c.IsConnected() {
 		return subscription.ErrTransportClientClosedConnection
 	}
@@ -129,19 +135,13 @@ func (c *Client) Disconnect() error {
 // DisconnectWithReason will close the websocket and provide the close code and reason.
 // It can only consume CloseReason or CompiledCloseReason.
 func (c *Client) DisconnectWithReason(reason any) error {
-	var err error
-	switch reason := reason.(type) {
-	case CloseReason:
-		err = c.writeFrame(ws.Frame(reason))
-	case CompiledCloseReason:
-		err = c.writeCompiledFrame(reason)
-	default:
-		c.logger.Error("websocket.Client.DisconnectWithReason: on reason/frame parsing",
-			abstractlogger.String("message", "unknown reason provided"),
-		)
-		frame := NewCloseReason(4400, "unknown reason")
-		err = c.writeFrame(ws.Frame(frame))
+	c.writeMu.Lock()
+	err := c.writeCloseFrame(reason)
+	if err == nil {
+		// still under the write lock: a message that comes later finds the client disconnected
+		c.changeConnectionStateToClosed()
 	}
+	c.writeMu.Unlock()
 
 	c.logger.Debug("websocket.Client.DisconnectWithReason: before sending close frame",
 		abstractlogger.String("message", "disconnecting client"),
@@ -155,6 +155,23 @@ func (c *Client) DisconnectWithReason(reason any) error {
 	}
 
 	return c.Disconnect()
+}
+
+func (c *Client) writeCloseFrame(reason any) error {
+	var err error
+	switch reason := reason.(type) {
+	case CloseReason:
+		err = c.writeFrame(ws.Frame(reason))
+	case CompiledCloseReason:
+		err = c.writeCompiledFrame(reason)
+	default:
+		c.logger.Error("websocket.Client.DisconnectWithReason: on reason/frame parsing",
+			abstractlogger.String("message", "unknown reason provided"),
+		)
+		frame := NewCloseReason(4400, "unknown reason")
+		err = c.writeFrame(ws.Frame(frame))
+	}
+	return err
 }
 
 func (c *Client) writeFrame(frame ws.Frame) error {
